@@ -854,9 +854,14 @@ func (m *metaRun) observe(st metaStep) {
 		if got == nil {
 			got = []string{}
 		}
-		if !m.strictOrder {
-			got = sortedStrings(got)
+		if m.strictOrder {
+			byKey := append([]string{}, got...)
+			sort.Slice(byKey, func(i, j int) bool { return byKey[i]+"/" < byKey[j]+"/" })
+			if !vutil.EqStrings(got, sortedStrings(got)) && !vutil.EqStrings(got, byKey) {
+				m.bad("obs/listrepos/order", "name order or key order", got, "")
+			}
 		}
+		got = sortedStrings(got)
 		if !vutil.EqStrings(got, sortedStrings(post.Obs.Repos)) {
 			m.bad(classifySeq("obs/listrepos", sortedStrings(post.Obs.Repos), got), sortedStrings(post.Obs.Repos), got, "")
 		}
@@ -948,8 +953,11 @@ func (m *metaRun) observe(st metaStep) {
 			continue
 		}
 		var got, exp []string
-		for _, ld := range lds {
+		for i, ld := range lds {
 			got = append(got, fmt.Sprintf("%s=%d", ld.Name, e.rev[ld.BundleID]))
+			if m.strictOrder && i > 0 && lds[i-1].Name > ld.Name {
+				m.bad("obs/listlabels/order", "labels in the order of their keys (by name)", []string{lds[i-1].Name, ld.Name}, repo)
+			}
 		}
 		for _, l := range byRepo[repo] {
 			exp = append(exp, fmt.Sprintf("%s=%d", l.Name, l.Bundle))
